@@ -797,4 +797,149 @@ theorem fwd_field {al nm : Name} {args : List Argument} {ds : List Directive} {s
       rintro y a5 ⟨rfl, hσ5⟩
       exact fwd_fieldTail hsub ha hd (n + 1) n pos p x y a5 σ' (by rw [hσ5]; exact h4) hfol
 
+theorem fwd_parseFragmentName {a : AS} {σ' : Stream} (n : Name) (h : Starts a.σ [tName n] σ') (hn : n ≠ str "on") :
+    Fwd parseFragmentName a (fun x a' => x = n ∧ a'.σ = σ') := by
+  obtain ⟨u, hσ, hu⟩ := h.single
+  unfold parseFragmentName
+  refine Fwd.bind (fwd_peek a) ?_
+  rintro t a1 ⟨rfl, rfl⟩
+  have hv : a.σ.head.value = n := by rw [hσ]; exact ofToken_value hu
+  refine Fwd.ite_neg (by rw [hv]; exact hn) ?_
+  exact fwd_parseName n (by simpa using h)
+
+theorem fwd_spread {nm : Name} {ds : List Directive} {p : Pos} (hnm : nm ≠ str "on") (hd : DirsOK ds) :
+    FwdSel (.spread nm ds p) := by
+  intro n a σ' hs hfol
+  obtain ⟨f1, f2, f3, f4⟩ := hfol
+  cases n with
+  | zero => exact Fwd.outOfFuel _ _ _
+  | succ n =>
+    simp only [printSelection] at hs
+    obtain ⟨σ1, h1, hs2⟩ := hs.cons_single
+    obtain ⟨σ2, h2, h3⟩ := hs2.cons_single
+    obtain ⟨u, hσu, hu⟩ := h2.single
+    unfold parseSelection
+    refine Fwd.bind (fwd_peek a) ?_
+    rintro t a1 ⟨rfl, rfl⟩
+    refine Fwd.ite_pos hs.head_kind ?_
+    rw [parseFragmentWith_eq]
+    refine Fwd.bind (fwd_punct .spread (by simpa using h1)) ?_
+    rintro _ a2 hσ2
+    refine Fwd.bind (fwd_peek a2) ?_
+    rintro pk a3 ⟨rfl, rfl⟩
+    have hk : a2.σ.head.kind = .name := by rw [hσ2, hσu]; exact ofToken_kind hu
+    have hv : a2.σ.head.value = nm := by rw [hσ2, hσu]; exact ofToken_value hu
+    refine Fwd.ite_pos ⟨hk, by rw [hv]; exact hnm⟩ (Fwd.bind (fwd_peekPos _) ?_)
+    rintro pos a4 rfl
+    refine Fwd.bind (fwd_parseFragmentName nm (by simpa [hσ2] using h2) hnm) ?_
+    rintro x a5 ⟨rfl, hσ5⟩
+    refine Fwd.bind (fwd_directives false ds hd (by simp) (n + 1) a5 σ' (by rw [hσ5]; exact h3) f3 f2) ?_
+    rintro ds' a6 ⟨hds, hσ⟩
+    refine (Fwd.pure _ _).mono ?_
+    rintro y a7 ⟨rfl, rfl⟩
+    exact ⟨by simp [Selection.erasePos, hds], hσ⟩
+
+theorem fwd_inlineTail {ds : List Directive} {ss : Selections} (hsub : ∀ x ∈ ss.toList, FwdSel x) (hd : DirsOK ds)
+    (hne : ss ≠ .nil) (n m : Nat) (pos p : Pos) (tc : Name) (a : AS) (σ' : Stream)
+    (hs : Starts a.σ (printDirectives ds ++ printSelectionSet ss) σ') :
+    Fwd (inlineTail (parseSelection m) n pos tc) a
+      (fun y a' => y.erasePos = (Selection.inline tc ds ss p).erasePos ∧ a'.σ = σ') := by
+  rw [Starts.append_iff] at hs
+  obtain ⟨σ1, h1, h2⟩ := hs
+  have k2 : σ1.head.kind = .braceL := by
+    have := h2.head_kind (t := tP .braceL)
+    exact this
+  unfold inlineTail
+  refine Fwd.bind (fwd_directives false ds hd (by simp) n a σ1 h1 (by rw [k2]; decide) (by rw [k2]; decide)) ?_
+  rintro ds' a1 ⟨hds, hσ1⟩
+  refine Fwd.bind (fwd_selectionSet hsub hne n m a1 σ' (by rw [hσ1]; exact h2)).1 ?_
+  rintro ss' a2 ⟨hss, hσ⟩
+  refine (Fwd.pure _ _).mono ?_
+  rintro y a3 ⟨rfl, rfl⟩
+  exact ⟨by simp [Selection.erasePos, hds, hss], hσ⟩
+
+theorem fwd_inline {tc : Name} {ds : List Directive} {ss : Selections} {p : Pos} (hsub : ∀ x ∈ ss.toList, FwdSel x)
+    (hd : DirsOK ds) (hne : ss ≠ .nil) : FwdSel (.inline tc ds ss p) := by
+  intro n a σ' hs _
+  cases n with
+  | zero => exact Fwd.outOfFuel _ _ _
+  | succ n =>
+    have hs : Starts a.σ (tP .spread :: ((if tc = [] then [] else [tKw "on", tName tc]) ++
+        (printDirectives ds ++ printSelectionSet ss))) σ' := by
+      simpa [printSelection, printSelectionSet] using hs
+    obtain ⟨σ1, h1, hs2⟩ := hs.cons_single
+    unfold parseSelection
+    refine Fwd.bind (fwd_peek a) ?_
+    rintro t a1 ⟨rfl, rfl⟩
+    refine Fwd.ite_pos hs.head_kind ?_
+    rw [parseFragmentWith_eq]
+    refine Fwd.bind (fwd_punct .spread (by simpa using h1)) ?_
+    rintro _ a2 hσ2
+    refine Fwd.bind (fwd_peek a2) ?_
+    rintro pk a3 ⟨rfl, rfl⟩
+    by_cases htc : tc = []
+    · subst htc
+      simp only [if_true, List.nil_append] at hs2
+      have hk : a2.σ.head.kind ≠ .name := by
+        rw [hσ2, hs2.firstKind]
+        simp only [firstKind_append, firstKind_directives]
+        split
+        · simp [printSelectionSet, tP]
+        · decide
+      refine Fwd.ite_neg (fun h => hk h.1) (Fwd.bind (fwd_peekPos _) ?_)
+      rintro pos a4 rfl
+      refine Fwd.bind (fwd_peek _) ?_
+      rintro t2 a5 ⟨rfl, rfl⟩
+      refine Fwd.ite_neg (fun h => hk h.1) ?_
+      exact fwd_inlineTail hsub hd hne (n + 1) n pos p [] _ σ' (by simpa [hσ2] using hs2)
+    · simp only [if_neg htc, List.cons_append, List.nil_append] at hs2
+      obtain ⟨σ2, h2, hs3⟩ := hs2.cons_single
+      obtain ⟨σ3, h3, h4⟩ := hs3.cons_single
+      obtain ⟨u, hσu, hu⟩ := h2.single
+      have hk : a2.σ.head.kind = .name := by rw [hσ2, hσu]; exact ofToken_kind hu
+      have hv : a2.σ.head.value = kwOn := by rw [hσ2, hσu]; exact ofToken_value hu
+      refine Fwd.ite_neg (fun h => h.2 hv) (Fwd.bind (fwd_peekPos _) ?_)
+      rintro pos a4 rfl
+      refine Fwd.bind (fwd_peek _) ?_
+      rintro t2 a5 ⟨rfl, rfl⟩
+      refine Fwd.ite_pos ⟨hk, hv⟩ (Fwd.bind (fwd_next (a := { pk := true, σ := a2.σ, cnt := a2.cnt }) (t := u) (σ' := σ2) rfl
+        (by simp [hσ2, hσu])) ?_)
+      rintro _ a6 ⟨_, rfl⟩
+      refine Fwd.bind (fwd_parseName tc (by simpa using h3)) ?_
+      rintro x a7 ⟨rfl, hσ7⟩
+      exact fwd_inlineTail hsub hd hne (n + 1) n pos p x a7 σ' (by rw [hσ7]; exact h4)
+
+mutual
+  /-- **selections**: parsing the printed tokens of a printable, well-formed selection gives it back -/
+  theorem fwd_selection : ∀ s : Selection, SelOK s → WFSelection s → FwdSel s
+    | .field al nm args ds ss p, hok, hwf => by
+      simp only [SelOK] at hok
+      simp only [WFSelection] at hwf
+      exact fwd_field (fwd_selections ss hok.2.2 hwf) hok.1 hok.2.1
+    | .spread nm ds p, hok, hwf => by
+      simp only [SelOK] at hok
+      simp only [WFSelection] at hwf
+      exact fwd_spread hwf hok
+    | .inline tc ds ss p, hok, hwf => by
+      simp only [SelOK] at hok
+      simp only [WFSelection] at hwf
+      exact fwd_inline (fwd_selections ss hok.2 hwf.2) hok.1 hwf.1
+  theorem fwd_selections : ∀ ss : Selections, SelsOK ss → WFSelections ss → ∀ x ∈ ss.toList, FwdSel x
+    | .nil, _, _ => fun _ h => by cases h
+    | .cons s rest, hok, hwf => by
+      simp only [SelsOK] at hok
+      simp only [WFSelections] at hwf
+      intro x hx
+      simp only [Selections.toList, List.mem_cons] at hx
+      rcases hx with h | hx
+      · rw [h]; exact fwd_selection s hok.1 hwf.1
+      · exact fwd_selections rest hok.2 hwf.2 x hx
+end
+
+/-- `SelectionSet` at top level -/
+theorem fwd_requiredSelectionSet (ss : Selections) (hok : SelsOK ss) (hwf : WFSelections ss) (hne : ss ≠ .nil)
+    (n : Nat) (a : AS) (σ' : Stream) (hs : Starts a.σ (printSelectionSet ss) σ') :
+    Fwd (parseRequiredSelectionSet n) a (fun y a' => y.erasePos = ss.erasePos ∧ a'.σ = σ') :=
+  (fwd_selectionSet (fwd_selections ss hok hwf) hne n n a σ' hs).1
+
 end Gql.Parser
